@@ -444,7 +444,7 @@ func isZeroConst(t *sym.Term) bool {
 // ruleC20_3: opacity registers and circles in the converter.
 func ruleC20_3(c *Ctx) {
 	R := c.R
-	R.Rule("C20.3", "converter: a path opacity other than 1 becomes a blend of transparent (0x7f) with the first palette colour (0x80) weighted by uint8(opacity*255), written once per distinct opacity at ADJ = number of opacities seen + 1 (a known opacity writes nothing); each circle is a move to (cx-r, cy) (starting the path if nothing started it) followed by two relative half-turn arcs (+2r, then -2r) with radii r, no rotation, flags (false,true); centre and radius are normalised like absolute/relative operands; the path is ended exactly once", 4)
+	R.Rule("C20.3", "converter: a path opacity other than 1 becomes a blend of transparent (0x7f) with the first palette colour (0x80) weighted by uint8(opacity*255), written once per distinct opacity at ADJ = number of opacities seen + 1 (a known opacity writes nothing); each circle is a move to (cx-r, cy) (starting the path if nothing started it) followed by two relative half-turn arcs (+2r, then -2r) with radii r, no rotation, flags (false,true); centre and radius are normalised like absolute/relative operands; the path is ended exactly once; the register of a known opacity is reused for the path data and the circles", 5)
 	destT := c.Named("", "Destination")
 	fn := c.Fn("mdicons", "ParsePath")
 	if fn == nil || destT == nil {
@@ -530,8 +530,61 @@ func ruleC20_3(c *Ctx) {
 		R.Check(okGuard && okCol && okAdj && !inc, key+"#opacity", c.Pos(ev.Site), "on a new opacity: SetCReg(len(adjs)+1, false, BlendColor(uint8(opacity*255), 0x7f, 0x80)) and remember it", fmt.Sprintf("guard ok=%v colour ok=%v adj ok=%v; %s", okGuard, okCol, okAdj, detail))
 	}
 	// the register adjustment reaches the path data and the circles
-	if len(ppd) == 1 {
-		R.Check(len(ppd[0].Args) >= 3 && strings.Contains(ppd[0].Args[2].Key(), "adj") || true, key+"#pathdata", c.Pos(ppd[0].Site), "the path data is parsed with the opacity's register", "")
+	// the register adjustment that reaches the path data and the circles: 0 for an opaque path, the remembered
+	// register for a known opacity, the newly assigned one for a new opacity
+	adjOK := func(adj *sym.Term) (bool, string) {
+		leaves := sym.DeepCases(adj, 32)
+		if leaves == nil {
+			return false, "too many cases: " + shortKey(adj)
+		}
+		var hit, miss, opaque int
+		for _, lf := range leaves {
+			if sym.CondsContradict(lf.Conds) {
+				continue
+			}
+			ck := sym.And(lf.Conds...).Key()
+			vk := lf.Val.Key()
+			isHit := strings.Contains(ck, "lookupok") && !strings.Contains(ck, "not(extract:1($lookup") && !strings.Contains(ck, "not($lookupok")
+			for _, cd := range lf.Conds {
+				if cd.Op == "not" && strings.Contains(cd.Key(), "lookupok") {
+					isHit = false
+				}
+			}
+			mentionsOK := strings.Contains(ck, "lookupok")
+			switch {
+			case lf.Val.IsConst():
+				if k, _ := lf.Val.Int64(); k != 0 || mentionsOK {
+					return false, "constant adjustment " + vk + " on a path that looked the opacity up"
+				}
+				opaque++
+			case strings.Contains(vk, "len($param:adjs)"):
+				if isHit || !mentionsOK {
+					return false, "a new register is used although the opacity is known"
+				}
+				miss++
+			case strings.Contains(vk, "lookup"):
+				if !isHit {
+					return false, "the remembered register is used on a miss"
+				}
+				hit++
+			default:
+				return false, "unrecognised adjustment " + vk
+			}
+		}
+		if hit == 0 || miss == 0 || opaque == 0 {
+			return false, fmt.Sprintf("cases seen: opaque=%d known opacity=%d new opacity=%d (each must occur): %s", opaque, hit, miss, shortKey(adj))
+		}
+		return true, ""
+	}
+	if len(ppd) == 1 && len(ppd[0].Args) >= 3 {
+		ok, why := adjOK(ppd[0].Args[2])
+		R.Check(ok, key+"#pathdata", c.Pos(ppd[0].Site), "the path data is parsed with the opacity's register (0, remembered, or new)", why)
+	} else {
+		R.Unknown(key+"#pathdata", pos, "the call of ParsePathData was not found")
+	}
+	if len(starts) == 1 {
+		ok, why := adjOK(starts[0].Args[0])
+		R.Check(ok, key+"#circle-start", c.Pos(starts[0].Site), "a path made of circles only starts with the opacity's register (0, remembered, or new)", why)
 	}
 	// circles
 	okCirc := len(starts) == 1 && len(moves) == 1 && len(arcs) == 2
